@@ -1,5 +1,6 @@
 import SaModel.Roundtrip.Types
 import SaModel.Spec.Interp
+import SaModel.Lemmas.C01LeafBridge
 import SaModel.Lemmas.C04Pos
 import SaModel.Lemmas.C04Scope
 /-
@@ -171,16 +172,16 @@ theorem interp_prim (ext : Ext) (o : TraceOpts) (p : Prim) (v : Val) (nb : Bool)
   cases p with
   | bool =>
     cases v <;> simp [Prim.wt] at h
-    simp [ser, lv, primDT, interpDT, isUnknownVariant, interpScalar, convLeaf, boolInt_ne_zero, bind, Except.bind, pure, Except.pure]
+    simp [ser, lv, primDT, interpDT, isUnknownVariant, interpScalar_eq_old, normErr_ok_iff, interpScalarOld, convLeaf, boolInt_ne_zero, bind, Except.bind, pure, Except.pure]
   | int t =>
     cases v <;> simp [Prim.wt] at h
-    cases t <;> simp [ser, lv, primDT, intDT, interpDT, isUnknownVariant, interpScalar, convLeaf, tryInto, h, bind, Except.bind, pure, Except.pure]
+    cases t <;> simp [ser, lv, primDT, intDT, interpDT, isUnknownVariant, interpScalar_eq_old, normErr_ok_iff, interpScalarOld, convLeaf, tryInto, h, bind, Except.bind, pure, Except.pure]
   | f32 =>
     cases v <;> simp [Prim.wt] at h
-    simp [ser, lv, primDT, interpDT, isUnknownVariant, interpScalar, convLeaf, bind, Except.bind, pure, Except.pure]
+    simp [ser, lv, primDT, interpDT, isUnknownVariant, interpScalar_eq_old, normErr_ok_iff, interpScalarOld, convLeaf, bind, Except.bind, pure, Except.pure]
   | f64 =>
     cases v <;> simp [Prim.wt] at h
-    simp [ser, lv, primDT, interpDT, isUnknownVariant, interpScalar, convLeaf, bind, Except.bind, pure, Except.pure]
+    simp [ser, lv, primDT, interpDT, isUnknownVariant, interpScalar_eq_old, normErr_ok_iff, interpScalarOld, convLeaf, bind, Except.bind, pure, Except.pure]
   | char =>
     cases v <;> simp [Prim.wt] at h
     rename_i c
@@ -188,15 +189,15 @@ theorem interp_prim (ext : Ext) (o : TraceOpts) (p : Prim) (v : Val) (nb : Bool)
       have h1 : (0 : Int) ≤ c := by omega
       have h2 : (c : Int) ≤ 4294967295 := by omega
       simp [IntTy.inRange, IntTy.min, IntTy.max, h1, h2]
-    simp [ser, lv, primDT, interpDT, isUnknownVariant, interpScalar, convLeaf, tryInto, hr, bind, Except.bind, pure, Except.pure]
+    simp [ser, lv, primDT, interpDT, isUnknownVariant, interpScalar_eq_old, normErr_ok_iff, interpScalarOld, convLeaf, tryInto, hr, bind, Except.bind, pure, Except.pure]
   | str =>
     cases v <;> simp [Prim.wt] at h
     simp only [ser, lv, primDT, strDT]
     by_cases hd : o.stringDictionaryEncoding = true <;> by_cases hl : o.stringsAsLargeUtf8 = true <;>
-      simp [hd, hl, interpDT, isUnknownVariant, interpScalar, interpDictStr, scalarToString, strBytes]
+      simp [hd, hl, interpDT, isUnknownVariant, interpScalar_eq_old, normErr_ok_iff, interpScalarOld, interpDictStr, dictValue, liftO, scalarToString, strBytes]
   | bytes =>
     cases v <;> simp [Prim.wt] at h
-    simp [ser, lv, primDT, interpDT, isUnknownVariant, interpScalar]
+    simp [ser, lv, primDT, interpDT, isUnknownVariant, interpScalar_eq_old, normErr_ok_iff, interpScalarOld]
 
 
 /-- the first field called `name`, with its skip flag, type and value -/
@@ -551,7 +552,7 @@ theorem interp_serO (ext : Ext) (o : TraceOpts) : ∀ (t : Ty) (v : Val) (nb : B
           | unit =>
             have hst : interpDictStr ext (strDT o) vn = .ok (.str (strBytes vn)) := by
               unfold strDT; split <;> rfl
-            simp [ser, lvO, hg, hform, interpDT, interpScalar, scalarToString, hst, strBytes]
+            simp [ser, lvO, hg, hform, interpDT, interpScalar_eq_old, normErr_ok_iff, interpScalarOld, scalarToString, hst, strBytes]
           | _ => simp at hk
         · -- the Union form
           have hform' : (vars.withoutData && o.enumsWithoutDataAsStrings) = false := by simpa using hform
